@@ -664,7 +664,14 @@ def u14(ctx, rid):
     for f in prog.fns.values():
         if not f.is_coroutine or f.file != 'src/storage/core.rs':
             continue
-        sorts = [c for c in f.calls if c.name.startswith('sort') and 'Entry' in c.full and c.bb in f.reachable()]
+        def is_sort(c):
+            return c.name.startswith('sort') and 'Entry' in c.full
+        sorts = [c for c in f.calls if is_sort(c) and c.bb in f.reachable()]
+        if not sorts:
+            # the merge (sort + cut) may be a helper that is handed the result vector; the guard stays at the call site
+            sorts = [c for c in f.calls if c.bb in f.reachable() and c.name != 'poll' and any(
+                t in prog.fns and prog.fns[t].file == f.file and not prog.fns[t].is_coroutine and any(is_sort(x) for x in prog.fns[t].calls)
+                for t in prog.resolve(c))]
         if not sorts:
             continue
         # the local that is compared with a constant and controls the sort
